@@ -240,6 +240,231 @@ Section Write.
     rewrite (unknown_fields_enc (filter (unknown_to so) wfs) (Forall_filter _ _ _ Hwfs_wf)). eauto.
   Qed.
 
+  (* ---- which errors Write can end in ---- *)
+
+  Definition write_refusal (e : kerr) : Prop := e = KStd ESetDup \/ exists c, e = KStd (EUnionCount c).
+
+  Definition E (v : value) : Prop := forall t key w x e,
+    wt_val n key t v = true -> keepable n t v = true -> closed_ty o t = true ->
+    to_w n t v = Ok w -> from_wk o t w = KOk x -> to_wk o t x = KErr e -> write_refusal e.
+
+  Lemma kmapM_err {A B} (f : A -> kres B) l e : kmapM f l = KErr e -> exists x, In x l /\ f x = KErr e.
+  Proof.
+    induction l as [|a l IH]; cbn [kmapM]; [discriminate|].
+    destruct (f a) as [y|e1] eqn:Ea.
+    - destruct (kmapM f l) as [ys|e2]; [discriminate|]. intro H. injection H as <-.
+      destruct (IH eq_refl) as (x & Hx & Hfx). exists x. split; [right; assumption | assumption].
+    - intro H. injection H as <-. exists a. split; [left; reflexivity | assumption].
+  Qed.
+
+  Lemma kbind_err {A B} (r : kres A) (f : A -> kres B) e :
+    kbind r f = KErr e -> r = KErr e \/ exists a, r = KOk a /\ f a = KErr e.
+  Proof. destruct r as [a|e1]; cbn; [eauto | intros [= <-]; auto]. Qed.
+
+  Lemma E_base v : is_base_value v = true -> E v.
+  Proof.
+    intros Hb t key w x e Hwt _ _ Hw Hx He. destruct v; try discriminate;
+      destruct t; try discriminate; cbn [to_w] in Hw; injection Hw as <-;
+      cbn [from_wk lift from_w] in Hx; injection Hx as <-; cbn [to_wk lift to_w] in He; discriminate.
+  Qed.
+
+  Lemma E_nil : E VNil.
+  Proof.
+    intros t key w x e Hwt Hkp Hc Hw Hx He. destruct t; try discriminate.
+    - cbn [to_w] in Hw. injection Hw as <-. cbn [from_wk lift from_w] in Hx. injection Hx as <-.
+      cbn [to_wk lift to_w] in He. discriminate.
+    - cbn [to_w] in Hw. injection Hw as <-. cbn [from_wk length Nat.eqb] in Hx. rewrite orb_true_r in Hx.
+      cbn [kmapM kbind] in Hx. injection Hx as <-. cbn [to_wk kmapM kbind] in He. discriminate.
+    - cbn [to_w] in Hw. injection Hw as <-. cbn [from_wk length Nat.eqb] in Hx. rewrite orb_true_r in Hx.
+      cbn [kmapM kbind] in Hx. injection Hx as <-. cbn [to_wk] in He. unfold set_has_dup in He. cbn [has_dup kmapM kbind] in He. discriminate.
+    - cbn [to_w] in Hw. injection Hw as <-. cbn [from_wk length Nat.eqb] in Hx. rewrite orb_true_r in Hx.
+      cbn [kmapM kbind] in Hx. injection Hx as <-. cbn [to_wk map_build fold_left kmapM kbind] in He. discriminate.
+  Qed.
+
+  Lemma E_elems a l ws xs e :
+    Forall E l -> (forall v, In v l -> wt_val n false a v = true) -> (forall v, In v l -> keepable n a v = true) ->
+    closed_ty o a = true ->
+    Forall2 (fun v w => to_w n a v = Ok w) l ws -> Forall2 (fun w x => from_wk o a w = KOk x) ws xs ->
+    kmapM (to_wk o a) xs = KErr e -> write_refusal e.
+  Proof.
+    intros HT Hwt Hkp Hc Hm Hmx He. destruct (kmapM_err _ _ _ He) as (x & Hx & Hxe).
+    rewrite Forall_forall in HT.
+    assert (H2 : Forall2 (fun v c => forall e', to_wk o a c = KErr e' -> write_refusal e') l xs).
+    { apply (Forall2_comp _ _ _ _ _ _ Hm Hmx). intros v w c Hin Hvw Hwc e' He'.
+      apply (HT v Hin a false w c e' (Hwt v Hin) (Hkp v Hin) Hc Hvw Hwc He'). }
+    destruct (Forall2_In_r _ _ _ _ H2 Hx) as (v & _ & Hv). apply (Hv e Hxe).
+  Qed.
+
+  Lemma E_list l : Forall E l -> E (VList l).
+  Proof.
+    intros HT t key w x e Hwt Hkp Hc Hw Hx He. destruct t; try discriminate.
+    - cbn [wt_val] in Hwt. apply andb_true_iff in Hwt. destruct Hwt as [_ Hall].
+      rewrite forallb_forall in Hall. cbn [keepable] in Hkp. rewrite forallb_forall in Hkp. cbn [closed_ty] in Hc.
+      cbn [to_w] in Hw. apply bind_ok in Hw. destruct Hw as (ws & Hm & Hw). injection Hw as <-.
+      cbn [from_wk] in Hx. rewrite !ttype_of_spec, ttype_eqb_refl in Hx. cbn [orb] in Hx.
+      apply kbind_ok in Hx. destruct Hx as (xs & Hmx & Hx). injection Hx as <-.
+      cbn [to_wk] in He. apply kbind_err in He. destruct He as [He|(ys & _ & He)]; [|discriminate].
+      apply (E_elems t l ws xs e HT Hall Hkp Hc (mapM_Forall2 _ _ _ Hm) (kmapM_Forall2 _ _ _ Hmx) He).
+    - cbn [wt_val] in Hwt. apply andb_true_iff in Hwt. destruct Hwt as [Hwt _].
+      apply andb_true_iff in Hwt. destruct Hwt as [_ Hall].
+      rewrite forallb_forall in Hall. cbn [keepable] in Hkp. rewrite forallb_forall in Hkp. cbn [closed_ty] in Hc.
+      cbn [to_w] in Hw. destruct (set_has_dup l); [discriminate|].
+      apply bind_ok in Hw. destruct Hw as (ws & Hm & Hw). injection Hw as <-.
+      cbn [from_wk] in Hx. rewrite !ttype_of_spec, ttype_eqb_refl in Hx. cbn [orb] in Hx.
+      apply kbind_ok in Hx. destruct Hx as (xs & Hmx & Hx). injection Hx as <-.
+      cbn [to_wk] in He. destruct (set_has_dup xs); [injection He as <-; left; reflexivity|].
+      apply kbind_err in He. destruct He as [He|(ys & _ & He)]; [|discriminate].
+      apply (E_elems t l ws xs e HT Hall Hkp Hc (mapM_Forall2 _ _ _ Hm) (kmapM_Forall2 _ _ _ Hmx) He).
+  Qed.
+
+  Lemma E_map kvs : Forall (fun kv => E (fst kv) /\ E (snd kv)) kvs -> E (VMap kvs).
+  Proof.
+    intros HT t key w x e Hwt Hkp Hc Hw Hx He. destruct t as [| | | | | | | | | | | |a b]; try discriminate.
+    cbn [wt_val] in Hwt. apply andb_true_iff in Hwt. destruct Hwt as [Hwt _].
+    apply andb_true_iff in Hwt. destruct Hwt as [_ Hall]. rewrite forallb_forall in Hall.
+    cbn [keepable] in Hkp. apply andb_true_iff in Hkp. destruct Hkp as [Hkp Hkeys].
+    rewrite forallb_forall in Hkp. apply negb_true_iff in Hkeys.
+    cbn [closed_ty] in Hc. apply andb_true_iff in Hc. destruct Hc as [Hca Hcb].
+    rewrite Forall_forall in HT.
+    cbn [to_w] in Hw. apply bind_ok in Hw. destruct Hw as (ws & Hm & Hw). injection Hw as <-.
+    cbn [from_wk] in Hx. rewrite !ttype_of_spec, !ttype_eqb_refl in Hx. cbn [andb orb] in Hx.
+    apply kbind_ok in Hx. destruct Hx as (xs & Hmx & Hx). injection Hx as <-.
+    apply mapM_Forall2 in Hm. apply kmapM_Forall2 in Hmx.
+    assert (H1 : Forall2 (fun kv c => keyrep (fst c) = keyrep (norm n a (fst kv)) /\
+                    (forall e', to_wk o a (fst c) = KErr e' -> write_refusal e') /\
+                    (forall e', to_wk o b (snd c) = KErr e' -> write_refusal e')) kvs xs).
+    { apply (Forall2_comp _ _ _ _ _ _ Hm Hmx). intros kv wkv c Hin Hab Hbc.
+      destruct (HT kv Hin) as [Tk Tv]. specialize (Hall kv Hin). apply andb_true_iff in Hall. destruct Hall as [Hwk Hwv].
+      specialize (Hkp kv Hin). apply andb_true_iff in Hkp. destruct Hkp as [Hkk Hkv].
+      apply bind_ok in Hab. destruct Hab as (wk & Hwk1 & Hab). apply bind_ok in Hab. destruct Hab as (wv & Hwv1 & Hab).
+      injection Hab as <-. cbn [fst snd] in Hbc.
+      apply kbind_ok in Hbc. destruct Hbc as (xk & Hxk & Hbc). apply kbind_ok in Hbc. destruct Hbc as (xv & Hxv & Hbc).
+      injection Hbc as <-. cbn [fst snd].
+      destruct (keep_roundtrip_w o n Hext Hwfo Hwfn Hopt (fst kv) a true wk xk Hwk Hkk Hca Hwk1 Hxk) as [Hrep _].
+      split; [exact Hrep|]. split.
+      - intros e' He'. apply (Tk a true wk xk e' Hwk Hkk Hca Hwk1 Hxk He').
+      - intros e' He'. apply (Tv b false wv xv e' Hwv Hkv Hcb Hwv1 Hxv He'). }
+    assert (Hnd : map_build xs = xs).
+    { apply map_build_nodup. rewrite <- Hkeys. apply has_dup_keyrep.
+      clear - H1. induction H1 as [|kv c kvs xs Hc _ IH]; cbn [map]; constructor; [apply Hc | exact IH]. }
+    rewrite Hnd in He. cbn [to_wk] in He. apply kbind_err in He. destruct He as [He|(ys & _ & He)]; [|discriminate].
+    destruct (kmapM_err _ _ _ He) as (c & Hcin & Hce).
+    destruct (Forall2_In_r _ _ _ _ H1 Hcin) as (kv & _ & (_ & Hk & Hv)).
+    apply kbind_err in Hce. destruct Hce as [Hce|(dk & _ & Hce)]; [apply (Hk e Hce)|].
+    apply kbind_err in Hce. destruct Hce as [Hce|(dv & _ & Hce)]; [apply (Hv e Hce)|discriminate].
+  Qed.
+
+  Lemma E_struct fs : Forall (fun p => E (snd p)) fs -> E (VStruct fs).
+  Proof.
+    intros HT t key w x e Hwt Hkp Hc Hw Hx He.
+    destruct t as [| | | | | | | | |nm| | |]; try discriminate.
+    pose proof Hwt as Hwt0. pose proof Hw as Hw0.
+    rewrite wt_struct_eq in Hwt. destruct (find_struct n nm) as [sn|] eqn:Esn; [|discriminate].
+    apply andb_true_iff in Hwt. destruct Hwt as [Hwt _]. apply andb_true_iff in Hwt.
+    destruct Hwt as [Hids Hslots]. apply list_eqbZ_eq in Hids. rewrite forallb_forall in Hslots.
+    cbn [closed_ty] in Hc. destruct (find_struct o nm) as [so|] eqn:Eso; [|discriminate]. clear Hc.
+    destruct (ext_struct o n Hext nm so Eso) as (sn' & Esn' & He0). rewrite Esn in Esn'. injection Esn' as <-.
+    cbn [keepable] in Hkp. rewrite Esn in Hkp. rewrite forallb_forall in Hkp.
+    rewrite to_w_struct, Esn in Hw. cbn zeta in Hw.
+    destruct (is_union sn && negb (count_set (s_fields sn) fs =? 1)%nat); [discriminate|].
+    apply bind_ok in Hw. destruct Hw as (ofs & Hm & Hw). injection Hw as <-.
+    rewrite to_w_struct, Esn in Hw0. cbn zeta in Hw0.
+    rewrite from_wk_struct, Eso in Hx. apply kbind_ok in Hx. destruct Hx as (st & Hfold & Hfin).
+    unfold kfinish_read in Hfin. destruct (first_missing (s_fields so) (snd st)) eqn:Emo; [discriminate|].
+    injection Hfin as <-.
+    pose proof (wf_struct_nodup _ (wf_env_struct _ _ _ Hwfn Esn)) as Hndn.
+    pose proof (wf_struct_nodup _ (wf_env_struct _ _ _ Hwfo Eso)) as Hndo.
+    rewrite Forall_forall in HT.
+    set (emit_n := fun p => match wfield_fn n sn p with Ok ow => ow | Err _ => None end).
+    assert (Hofs : ofs = map emit_n fs) by (apply (mapM_map _ None _ _ Hm)).
+    assert (Hemit_n : forall p wf, emit_n p = Some wf -> wid wf = fst p).
+    { intros p wf H. unfold emit_n in H. destruct (wfield_fn n sn p) as [ow|] eqn:E; [|discriminate].
+      subst ow. apply (wfield_fn_id _ _ _ _ E). }
+    assert (Hfs_nd : NoDup (map fst fs)) by (rewrite Hids; exact Hndn).
+    subst ofs. set (wfs := cat_somes (map emit_n fs)) in *.
+    assert (Hwfs_nd : NoDup (map wid wfs)) by (apply emit_nodup; assumption).
+    assert (Hwfs_wf : Forall wf_field wfs).
+    { destruct (to_w_wf n Hwfn (VStruct fs) (TRef nm) key (WStruct wfs) Hwt0) as [Hwfw _].
+      - rewrite to_w_struct, Esn. cbn zeta. exact Hw0.
+      - apply wf_struct_iff in Hwfw. exact Hwfw. }
+    destruct (kread_spec o so wfs [] (new_fields so) [] st Hwfs_nd Hfold) as (Hbuf & Hslo & _ & Hkrd & _).
+    cbn [app] in Hbuf. rewrite Forall_forall in Hkrd.
+    (* where can the error come from? *)
+    unfold keep_slots in He. rewrite to_wk_struct, Eso in He. rewrite Z.eqb_refl in He. cbn [negb] in He. cbn zeta in He.
+    destruct (is_union so && negb (count_set (s_fields so) (snd (fst st)) =? 1)%nat);
+      [injection He as <-; right; eauto|].
+    apply kbind_err in He. destruct He as [He|(ofs_o & _ & He)].
+    2:{ rewrite Hbuf in He. rewrite (unknown_fields_enc (filter (unknown_to so) wfs) (Forall_filter _ _ _ Hwfs_wf)) in He. discriminate. }
+    destruct (kmapM_err _ _ _ He) as (p' & Hp' & Hpe).
+    rewrite Hslo in Hp'. apply in_map_iff in Hp'. destruct Hp' as (q & Hq' & Hq).
+    unfold new_fields in Hq. apply in_map_iff in Hq. destruct Hq as (fo & Hq2 & Hfo). subst q.
+    set (id := f_id fo) in *.
+    assert (Efo : find_field id (s_fields so) = Some fo) by (apply find_field_Some_iff; auto).
+    pose proof (ext_field_old so sn id fo He0 Efo) as Efn.
+    destruct (find_field_In _ _ _ Efn) as [Hfn _].
+    set (sv := match assoc_slot id fs with Some y => y | None => VNil end).
+    set (p := (id, sv)).
+    assert (Hp : In p fs).
+    { rewrite (slots_as_map (s_fields sn) fs Hids Hndn). apply in_map_iff. exists fo. split; [reflexivity | assumption]. }
+    pose proof (Hslots p Hp) as Hok. pose proof (Hkp p Hp) as Hkpp. unfold p in Hkpp. cbn [fst snd] in Hkpp. rewrite Efn in Hkpp.
+    destruct (mapM_In _ _ _ p Hm Hp) as (ow & How).
+    assert (Hen : emit_n p = ow) by (unfold emit_n; rewrite How; reflexivity).
+    assert (Hwf_id : wire_find id wfs = ow).
+    { rewrite <- Hen. apply (wire_find_emit emit_n Hemit_n fs Hfs_nd p Hp). }
+    destruct ow as [wf0|].
+    - destruct (emitted_payload n sn p fo wf0 Efn Hok How) as (sv' & Hsv & Hwt' & Htow & Hty & Hpres & _).
+      unfold p in Hsv, Hpres. cbn [snd] in Hsv, Hpres.
+      assert (Hw0in : In wf0 wfs) by (apply wire_find_Some in Hwf_id; apply Hwf_id).
+      assert (Hw0id : wid wf0 = id) by (apply (Hemit_n p wf0 Hen)).
+      assert (Htyo : ttype_eqb (fst (fst wf0)) (ttype_of o (f_ty fo)) = true).
+      { rewrite Hty, !ttype_of_spec. apply ttype_eqb_refl. }
+      destruct (Hkrd wf0 Hw0in fo) as (xf & Hxf); [rewrite Hw0id; exact Efo | exact Htyo |].
+      assert (Ep' : p' = (id, wrap_slot fo xf)).
+      { rewrite <- Hq'. unfold kupd. cbn [fst snd]. fold id. rewrite Hwf_id, Efo, Htyo, Hxf. reflexivity. }
+      assert (TS : E sv').
+      { unfold wrap_slot in Hsv. destruct (base_ptr fo) eqn:Ebp.
+        - apply E_base. unfold base_ptr in Ebp. rewrite !andb_true_iff in Ebp.
+          destruct Ebp as [[_ Hb] Hnb]. apply negb_true_iff in Hnb.
+          apply (wt_base_value n false (f_ty fo) sv' Hb Hwt').
+          intro Hn. subst sv'. destruct (f_ty fo); discriminate.
+        - rewrite <- Hsv. apply (HT p Hp). }
+      assert (Hkp' : keepable n (f_ty fo) sv' = true).
+      { unfold wrap_slot in Hsv. destruct (base_ptr fo) eqn:Ebp.
+        - rewrite Hsv in Hkpp. cbn [is_nil] in Hkpp. rewrite andb_false_r in Hkpp. exact Hkpp.
+        - subst sv'. destruct (is_optional fo && is_nil sv) eqn:Eon; [|exact Hkpp].
+          apply andb_true_iff in Eon. destruct Eon as [Ho Hn].
+          apply (keepable_nil_present fo n sv Hn Hpres Ho). }
+      assert (Hcl : closed_ty o (f_ty fo) = true) by (apply (closed_field o n Hext nm so fo Eso Hfo)).
+      rewrite Ep' in Hpe. unfold kwfield_fn in Hpe. cbn [fst snd] in Hpe. rewrite Efo in Hpe.
+      destruct (present fo (wrap_slot fo xf)); [|discriminate].
+      assert (Hxe : to_wk o (f_ty fo) xf = KErr e).
+      { unfold wrap_slot in Hpe. destruct (base_ptr fo);
+          (apply kbind_err in Hpe; destruct Hpe as [Hpe|(wy & _ & Hpe)]; [exact Hpe|discriminate]). }
+      apply (TS (f_ty fo) false (snd wf0) xf e Hwt' Hkp' Hcl Htow Hxf Hxe).
+    - destruct (not_emitted n sn p fo Efn How) as (_ & Hopt_fo & _).
+      assert (Ep' : p' = (id, init_slot fo)).
+      { rewrite <- Hq'. unfold kupd. cbn [fst]. fold id. rewrite Hwf_id. reflexivity. }
+      rewrite Ep' in Hpe. unfold kwfield_fn in Hpe. cbn [fst snd] in Hpe. rewrite Efo in Hpe.
+      destruct (opt_default_cases o n Hopt so nm fo Eso Hfo Hopt_fo) as [Hpi|(Hpi & Hbp & wd & Hwd & _)]; rewrite Hpi in Hpe; [discriminate|].
+      rewrite Hbp, Hwd in Hpe. cbn [kbind] in Hpe. discriminate.
+  Qed.
+
+  (* the only errors the old code's Write can end in: the set check and the union count *)
+  Theorem keep_rewrite_errors_w : forall v, E v.
+  Proof.
+    intro v. induction v using value_ind2.
+    - apply E_base. reflexivity.
+    - apply E_base. reflexivity.
+    - apply E_base. reflexivity.
+    - apply E_base. reflexivity.
+    - apply E_base. reflexivity.
+    - apply E_list. assumption.
+    - apply E_map. assumption.
+    - apply E_struct. assumption.
+    - apply E_nil.
+    - intros t key w x e Hwt. discriminate.
+  Qed.
+
   Theorem keep_write_total_w : forall v, T v.
   Proof.
     intro v. induction v using value_ind2.
